@@ -164,11 +164,12 @@ func properties() map[string]*PropertySpec {
 		}})
 	add(&PropertySpec{ID: "C09",
 		Functions: "(*Server).Run (accept loop, connID/localConnID), Run$1, newConn, (*Request).ConnectionID, OnClose callback",
-		Outside:   []string{"more than 3 connections / 2 requests each; more than 2^63 accepts", "the inductive step from an arbitrary counter value is replaced by 3 unrolled iterations under every spawn-order schedule (which is what separates the per-iteration copy from the loop variable)"},
+		Outside:   []string{"more than 3 connections / 2 requests each; more than 2^63 accepts", "the accept-loop step relies on the loop variable being called connID (if a change renames it the override does not apply and the witness 'accept step' still has to be reached with p = 0 semantics); besides it 3 unrolled iterations under every spawn-order schedule (which is what separates the per-iteration copy from the loop variable)"},
 		Harnesses: []HarnessSpec{
 			nat("H_C09_step", "step", "inductive step: any connection id n in 1..2^63-1 and any request number k >= 1 (all 64-bit values)", ""),
 			eng("H_C09_ids", "ids", "1..2 connections x 1..2 requests, every child-first/spawner-first choice at each go statement", ""),
 			nat("H_C13_starttls", "starttls", "the connection's ID (7) is what every request reports before, during and after a StartTLS upgrade at request number 1..3", ""),
+			eng("H_C09_acceptstep", "accept step", "inductive step of the accept loop: the loop's connection counter starts from any value p in 0..2^62 (engine primitive vLoopInit replaces the constant the variable connID enters the loop with); the next connection has ID p+1 > 0, OnClose reports it, Run goes on", ""),
 			eng("H_C09_overlap", "ids", "2 connections x 1 request whose set-up may overlap: child-first/spawner-first for the connection goroutines plus one preemption at any synchronisation point (lock, wait group, atomic operation)", ""),
 			eng("H_C09_ids3", "ids", "1..3 connections x 1..2 requests; child-first/spawner-first explored for the connection goroutines only", ""),
 		}})
@@ -189,6 +190,7 @@ func properties() map[string]*PropertySpec {
 		Functions: "(*Server).Run (validateAddrPort, Listen, listenerReady), (*Server).Ready, (*Server).Stop",
 		Outside:   []string{"address forms: the ten rows listed in the harness; the resolver's answer and Listen's outcome are symbolic", "after Stop the flag is not required to drop (the property speaks of the interval until Stop is called)"},
 		Harnesses: []HarnessSpec{
+			eng("H_C09_acceptstep", "accept step", "after any number p (0..2^62) of earlier connections Run accepts and serves the next one and keeps running (Ready stays truthful)", ""),
 			eng("H_C17_ready", "run ok", "optionally (TLS) a silent peer that never starts its handshake connects first; the address may be in use at the first attempt to listen; 12 address forms (incl. ports outside 0..65535) x resolver answer x Listen outcome x 0..2 concurrent Ready pollers x spawn-order schedules", ""),
 		}})
 	td := func(name, reach, bound, tiers string) HarnessSpec {
@@ -217,6 +219,9 @@ func properties() map[string]*PropertySpec {
 		Harnesses: []HarnessSpec{
 			eng("H_C18_tls", "tls", "server certificate from a static list, a GetCertificate callback or a GetConfigForClient callback; configurations {none, server authentication, client certificate required} x first client {conforming, failing handshake, abandoned connect} with a conforming second client, spawn-order schedules", ""),
 			eng("H_C17_ready", "run ok", "Run start-up variants (address forms, Listen failing, the address briefly in use at the first attempt, TLS or not): whenever Run serves with a TLS configuration, the handler runs on a TLS connection", ""),
+			{Name: "H_TD_C13_parallel", Pkg: "testdirectory", Reach: []string{"parallel upgrades"},
+				Tweak: func(c *HarnessCfg, tier string) { c.ExtraPkgs["golang.org/x/exp/slices"] = true },
+				Bound: "mTLS directory serving StartTLS requests on two sessions: the configuration object the listener uses keeps ClientAuth = RequireAndVerifyClientCert"},
 			{Name: "H_TD_C18_config", Pkg: "testdirectory", Reach: []string{"config"}, Bound: "GetTLSConfig with / without WithMTLS; x509 / ecdsa / pem / testify calls are opaque stubs that never fail",
 				Tweak: func(c *HarnessCfg, tier string) { c.OpaquePkgs = tdOpaque }},
 			{Name: "H_TD_C18_start", Pkg: "testdirectory", Reach: []string{"start"}, Bound: "Start with every subset of {WithNoTLS, WithMTLS}: the configuration the listener is wrapped with",
